@@ -77,6 +77,11 @@ func (r RemoveIntersections) processSchema(v *Visitor, schema *ast.Schema) (*ast
 
 func (r RemoveIntersections) processObject(_ *Visitor, schema *ast.Schema, object ast.Object) (ast.Object, error) {
 	ref := object.Type.AsRef()
+	if ref.ReferredPkg != schema.Package {
+		// an alias of an object of another package: nothing of this schema is replaced
+		return object, nil
+	}
+
 	locatedObject, ok := schema.LocateObject(ref.ReferredType)
 	if !ok {
 		return object, nil
